@@ -164,7 +164,7 @@ REFCODE_POOL = ["BD8D1234", "BD8D1235", "BD8D5678", "BD201234", "BDE51234", "BC8
 
 
 def gen_store(rng, n, *, style=None, ext=None, id_magnitude=None, refpool=None, with_src=None, max_sections=5,
-              classes=None, ud_targets=None, dup_plid=0.3, links=0):
+              classes=None, ud_targets=None, dup_plid=0.3, links=0, big=0.02):
     """n well-formed PELs with distinct entry ids; file names are unambiguous:
     no name contains the 8-digit entry id of another file."""
     style = style or rng.choice(["bmc", "bmc", "plain", "mixed", "numeric", "digits"])
@@ -181,6 +181,12 @@ def gen_store(rng, n, *, style=None, ext=None, id_magnitude=None, refpool=None, 
         r = pelgen.gen_pel(rng, eid=eid, plid=plid, want_class=rng.choice(classes) if classes else None,
                            refcode_pool=refpool, with_src=with_src, max_sections=max_sections,
                            id_magnitude=id_magnitude, ud_targets=ud_targets)
+        if rng.random() < big:
+            # a PEL of tens of kilobytes (one large user-data / unknown section)
+            r["sections"].append({"kind": "raw", "id": rng.choice(["UD", "ZZ", "CH"]), "ver": 1, "subtype": 0x99, "comp": 0x0BAD,
+                                  "payload": (bytes(range(256)) * 250)[:rng.choice([17000, 33000, 60000])].hex()})
+            if r["sections"][-1]["id"] == "UD":
+                r["sections"][-1]["kind"] = "ud"
         recipes.append(r)
     for _ in range(20):
         names = make_names(rng, recipes, style, ext)
